@@ -14,7 +14,7 @@ from vf.core import Check, CaseResult
 TRUTHY = [1, 'x', [0], True, (0,)]
 FALSY = [0, '', None, [], False, ()]
 COND_KINDS = ['call', 'call_stateful', 'list', 'iter', 'short', 'long', 'truthy']
-SRC_KINDS = ['list', 'range', 'oneshot', 'iterable_obj']
+SRC_KINDS = ['list', 'range', 'oneshot', 'iterable_obj', 'listsub', 'listsub']
 
 
 class Monitor:
@@ -42,7 +42,15 @@ def build(case, mon: Monitor):
             mon.iters += 1
             return gen_src()
 
-    if sk == 'list':
+    class LoggingList(list):
+        """a real Sequence (so any short-cut for re-iterable inputs applies) that logs its iteration"""
+        def __iter__(self_):
+            mon.iters += 1
+            return gen_src()
+
+    if sk == 'listsub':
+        source = LoggingList(src)
+    elif sk == 'list':
         source = list(src)
     elif sk == 'range' and src == list(range(L)):
         source = range(L)
@@ -77,7 +85,14 @@ def build(case, mon: Monitor):
             for i, v in enumerate(vals):
                 mon.cond_pulls[i] = mon.cond_pulls.get(i, 0) + 1
                 yield v
-        cond = list(vals) if kind in ('list', 'truthy', 'short', 'long') and case.get('cond_as_list', True) else gen_c()
+        class LoggingCond(list):
+            def __iter__(self_):
+                mon.cond_iters = getattr(mon, 'cond_iters', 0) + 1
+                return gen_c()
+        if kind in ('list', 'truthy', 'short', 'long') and case.get('cond_as_list', True):
+            cond = LoggingCond(vals) if sk == 'listsub' else list(vals)
+        else:
+            cond = gen_c()
     return source, cond, m
 
 
@@ -141,7 +156,8 @@ def run_one(split, case):
             errs.append(('C18:predicate-called-twice', 'the predicate was evaluated more than once for an element',
                          {'calls': dict(mon.calls)}))
             break
-        if any(v > 1 for v in mon.pulls.values()) or mon.iters > 1:
+        if any(v > 1 for v in mon.pulls.values()) or mon.iters > 1 or getattr(mon, 'cond_iters', 0) > 1 \
+                or any(v > 1 for v in mon.cond_pulls.values()):
             errs.append(('C18:source-consumed-twice', 'a source element was pulled more than once',
                          {'pulls': dict(mon.pulls), 'iters': mon.iters}))
             break
@@ -208,7 +224,7 @@ class C18(Check):
                     for ck in COND_KINDS:
                         if ck != 'long' and any(tr[L:]):
                             continue
-                        for sk in ('list', 'oneshot') if L else ('list',):
+                        for sk in ('list', 'oneshot', 'listsub') if L else ('list',):
                             for sc in all_scripts(L + 1):
                                 yield {'src': list(src), 'vals': list(tr), 'truth': list(tr), 'cond': ck, 'srck': sk,
                                        'script': sc, 'finish': True}
@@ -293,7 +309,7 @@ class C18(Check):
     def floors(self, tier):
         k = 1 if tier == 'quick' else 10
         return {'nontrivial': 20000 * k, 'scripts_interleaving': 10000 * k, 'exhaust_cases': 32,
-                'scripts_dropping_one_half': 5000 * k, 'cond_call_stateful': 3000 * k, 'cond_short': 3000 * k, 'cond_long': 3000 * k, 'source_oneshot': 5000 * k}
+                'scripts_dropping_one_half': 5000 * k, 'cond_call_stateful': 3000 * k, 'cond_short': 3000 * k, 'cond_long': 3000 * k, 'source_oneshot': 5000 * k, 'source_listsub': 5000 * k}
 
     def extra_evidence(self, tier, agg):
         return {'exhaustive': False,
